@@ -229,12 +229,17 @@ Proof. induction n; intros i dep l H; [exact H|]. cbn. apply IHn, marks_agree_gl
 Lemma marks_agree_globclear : forall n i dep l, marks_agree l -> marks_agree (globclear n i dep l).
 Proof. induction n; intros i dep l H; [exact H|]. cbn. apply IHn, marks_agree_globget, H. Qed.
 
-Lemma marks_agree_glob_scan : forall fuel i dep l, marks_agree l -> marks_agree (snd (glob_scan fuel i dep l)).
+Lemma scan_l_lid : forall L i dep, map lid (snd (scan_l i dep L)) = map lid L.
 Proof.
-  induction fuel; intros i dep l H; [exact H|]. cbn [glob_scan].
-  destruct (i <? length (lns l))%nat; [|exact H].
-  pose proof (marks_agree_globget l i dep H) as H1. destruct (lbuf_globget l i dep) as [l1 m]. cbn [fst] in H1.
-  destruct m; [exact H1|]. apply IHfuel, H1.
+  induction L as [|x L IH]; intros i dep; [reflexivity|]. destruct i as [|i]; cbn [scan_l].
+  - destruct (glob_marked dep x); [reflexivity|]. specialize (IH 0%nat dep). destruct (scan_l 0 dep L). cbn [snd map] in *. rewrite IH. reflexivity.
+  - specialize (IH i dep). destruct (scan_l i dep L). cbn [snd map] in *. rewrite IH. reflexivity.
+Qed.
+
+Lemma marks_agree_glob_scan i dep l : marks_agree l -> marks_agree (snd (glob_scan i dep l)).
+Proof.
+  unfold glob_scan. pose proof (scan_l_lid (lns l) i dep) as E. destruct (scan_l i dep (lns l)) as [j L2]. cbn [snd] in *.
+  apply marks_agree_same; [exact E | reflexivity].
 Qed.
 
 Lemma marks_agree_modified l : marks_agree l -> marks_agree (fst (lbuf_modified l)).
@@ -424,8 +429,8 @@ Proof.
   destruct (if run then exec body (set_xrow s (Z.of_nat i)) else (s, 0)) as [s1 r]. cbn [fst] in H1.
   destruct (run && negb (r =? 0)); [exact H1|].
   set (i1 := if run then _ else i).
-  pose proof (marks_agree_glob_scan (S (length (lns (lb s1)))) i1 dep (lb s1) H1) as H2.
-  destruct (glob_scan _ i1 dep (lb s1)) as [j l]. cbn [snd] in H2. apply IH. exact H2.
+  pose proof (marks_agree_glob_scan i1 dep (lb s1) H1) as H2.
+  destruct (glob_scan i1 dep (lb s1)) as [j l]. cbn [snd] in H2. apply IH. exact H2.
 Qed.
 
 Lemma sagree_glob fuel loc cmd arg s : sagree s -> sagree (fst (ec_glob rvalid rfind exec fuel loc cmd arg s)).
